@@ -3,7 +3,7 @@
    ceil((bit position + bit length) / 8) bytes, which is the summand of the static
    length computation (composite_codec_get_static_bit_length).
    PROVED AT MESSAGE LEVEL (C08_flat_static_length, C08_flat_length_is_static): for
-   messages which are a sequence of standard-length VALUE parameters with implicit
+   messages which are a sequence of standard-length CODED-CONST / VALUE parameters with implicit
    positions the static bit length is 8 x the length of every successful encoding.
    The other message-level statements (other parameter kinds, constant prefix,
    required/free) are correspondence + oracle only.  Known finding: condensed bit masks (see known_findings.json). *)
@@ -36,7 +36,7 @@ Print Assumptions C08_flat_static_length.
 
 Theorem C08_flat_length_is_static : forall fl vv msg w,
   (forall x, In x fl -> fits x (vv (fname x))) -> NoDup (map fname fl) ->
-  encode_msg (map mkp fl) None (VDict (fvals vv fl)) = Ok (msg, w) ->
+  encode_msg (map mkp fl) None (VDict (fvals vv (filter is_value fl))) = Ok (msg, w) ->
   static_bits_msg (map mkp fl) = Some (8 * blen msg).
 Proof. exact flat_length_is_static. Qed.
 Print Assumptions C08_flat_length_is_static.
